@@ -33,7 +33,7 @@ CHECKS = {
          "deterministic simulation: simulated clock driven by script ticks, cancellation at tick N, leak = bubble cannot drain"),
  "C12": ("exploration", "concurrent walkers (one of them with a context cancelled mid-way) and a spec updater (independent versions, or version B derived from the live one, edited and compiled while walks are in flight) under the serial scheduler; race monitor; each result must equal its solo result under one version", "§3 C12",
          "deterministic simulation: serial scheduler over concurrent walkers + swapper, race detector as monitor"),
- "C14": ("exploration", "recorder machines and a counting oracle over generated crews, routing targets and histories; sio single loop (direct, and through its own Loop with submitted messages whose processing fails at the end) and mcrew with asynchronous re-injection and failing state writes under the scheduler", "§3 C14",
+ "C14": ("exploration", "recorder machines and a counting oracle over generated crews, routing targets and histories; sio single loop (direct, and through its own Loop with submitted messages whose processing fails at the end), a metamorphic twin for crew operations carried in list-addressed messages, and mcrew with asynchronous re-injection and failing state writes under the scheduler", "§3 C14",
          "deterministic simulation: recorder machines with a counting oracle under seeded schedules and map orders"),
  "C15": ("fault_enumeration", "shadow store folded from Result.Changed compared with the live crew after every message; crash/restart at every message boundary of each generated history with a rebuilt twin crew; and a slow store folding results behind the crew's own Loop while timers fire and pipelined requests arrive, compared with the live crew at rest", "§3 C15",
          "deterministic simulation: shadow store + crash/restart at every boundary, twin crews"),
